@@ -191,6 +191,11 @@ def cases(tier):
     for bits, edges in patterns(4):
         out.append({"n": 4, "bits": bits, "edges": edges, "letters": [0.0, 4800.0, -2500.0], "Ts": [273.15],
                     "forms": ["csr/coo"], "no_reuse": True})
+    # energy differences below the cap but large in units of RT, at low and high temperature
+    for n in (2, 3):
+        for bits, edges in patterns(n):
+            out.append({"n": n, "bits": bits, "edges": edges, "letters": [0.0, 300.0, -150.0, 499.0], "Ts": [60.0, 100.0, 180.0, 2000.0],
+                        "forms": forms[:1], "no_reuse": True})
     for n in (2, 3, 4):
         for bits, edges in patterns(n):
             out.append({"n": n, "bits": bits, "edges": edges, "letters": [0.0, 7.0, -3.0], "Ts": [273.15], "forms": forms[:2],
